@@ -18,7 +18,7 @@ func TestVerifHostTable(t *testing.T) {
 	var args []string
 	n := 160
 	if os.Getenv("VERIF_TIER") == "thorough" {
-		n = 640
+		n = 240
 	}
 	for i := 0; i < n; i++ {
 		args = append(args, "n:"+strconv.Itoa(i))
@@ -27,7 +27,7 @@ func TestVerifHostTable(t *testing.T) {
 	for _, k := range keys {
 		args = append(args, "k:"+k)
 	}
-	vals := []string{"x", "y", "p", "q", "r"}
+	vals := []string{"x", "y", "p", "q", "r", "x b:y", "y b:x"}
 	for _, v1 := range vals {
 		args = append(args, "m:a="+v1)
 		for _, v2 := range vals {
